@@ -1,7 +1,13 @@
-// Package c14 drives the real utils/timer.Mgr.  The harness goroutine running a case IS the
-// owner of that case's Mgr: it creates and cancels timers, receives expiries from
-// Mgr.GetQueue() and calls Mgr.Do.  Timers use real millisecond durations; no hooks.
+// Package c14 drives the real utils/timer.Mgr.  Two worlds:
+//   - bare (this file): the harness goroutine running a case IS the owner of that case's
+//     timer.NewTimerMgr(): it creates and cancels timers, receives expiries from Mgr.GetQueue()
+//     and calls Mgr.Do;
+//   - service (svc.go, cases whose first op is OSvc): the manager is the TimerMgr of a real
+//     runservice.StandardRunService, its owner is the service's loop goroutine with its whole
+//     life cycle (created, started, busy, stopped by itself or by a foreign goroutine, ended).
+// Timers use real millisecond durations; no hooks.
 //
+// Bare world.
 // What makes an execution a function of the op list although real time is involved:
 //   - the queue channel is only read inside Settle, and Settle returns only when every armed,
 //     non-cancelled timer has delivered its expiry (so "Do k" never depends on how fast a
@@ -17,8 +23,10 @@ import (
 	"runtime"
 	"sort"
 	"strconv"
+	"sync"
 	"time"
 
+	"github.com/dfklegend/cell2/utils/runservice"
 	"github.com/dfklegend/cell2/utils/timer"
 
 	"verifh/hx"
@@ -44,6 +52,7 @@ type tinfo struct {
 	armAt     time.Time // taken before the (re-)arming call: real deadline >= armAt + d
 	cancelled bool      // the owner has called Cancel(id) after creation
 	expect    bool      // armed, an expiry will be delivered
+	queued    bool      // service world: its expiry is (as far as the driver knows) in the queue
 	recv      []*timer.Obj
 	count     int64
 }
@@ -54,12 +63,28 @@ type world struct {
 	mgr     *timer.Mgr
 	ts      []*tinfo
 	byID    map[timer.IdType]int
-	stopped bool
-	gid     uint64
+	stopped bool   // Mgr.Stop() has been called
+	gid     uint64 // the driver goroutine (bare world: the owner)
 	inCb    int
-	ran     []cbRec
+	ran     []cbRec // callbacks since the last op that reports them (guarded by mu)
 	tags    map[string]bool
 	nontriv bool
+	mu      sync.Mutex
+
+	// service world (svc.go)
+	svcMode   bool
+	name      string
+	svc       *runservice.StandardRunService
+	decoy     *runservice.StandardRunService
+	life      int32  // lifeNew .. lifeEnd (atomic)
+	loopGid   uint64 // the loop goroutine, once seen (mu)
+	decoyGid  uint64 // the decoy service's loop goroutine (mu)
+	decoyRuns int64
+	ctl       *controller // the task the loop is parked in (nil: not parked)
+	seen      int         // queue entries already reported by a Wait
+	racers    bool        // a timer was cancelled while armed: its expiry may be in the queue
+	inStop    bool
+	closing   bool
 }
 
 func goid() uint64 {
@@ -88,37 +113,54 @@ func (w *world) create(d int64, rep bool, arg int64, prog []any) {
 	}
 	w.byID[ti.id] = k
 	if w.inCb >= 0 {
-		w.tags["create-in-cb"] = true
+		w.tag("create-in-cb")
+		if w.svcMode && w.getLife() == lifeDown {
+			w.tag("create-in-cb-during-teardown")
+		}
 	}
 	if d == 0 {
-		w.tags["dur-0"] = true
+		w.tag("dur-0")
+	}
+	if w.svcMode {
+		switch w.getLife() {
+		case lifeNew:
+			w.tag("create-before-start")
+		case lifeDown:
+			w.tag("create-after-stop")
+		case lifeEnd:
+			w.tag("create-after-loop-end")
+		}
 	}
 }
 
 func (w *world) cancel(k int64) {
 	if k < 0 || k >= int64(len(w.ts)) {
-		w.tags["cancel-unknown-id"] = true
+		w.tag("cancel-unknown-id")
 		w.mgr.Cancel(timer.IdType(1<<40 + uint64(k&0xffff)))
 		return
 	}
 	ti := w.ts[k]
 	switch {
 	case ti.cancelled:
-		w.tags["cancel-twice"] = true
+		w.tag("cancel-twice")
 	case w.inCb == int(k):
-		w.tags["cancel-in-own-cb"] = true
+		w.tag("cancel-in-own-cb")
 		w.nontriv = true
-	case len(ti.recv) > 0:
-		w.tags["cancel-queued"] = true
+	case len(ti.recv) > 0 || ti.queued:
+		w.tag("cancel-queued")
 		w.nontriv = true
 	case ti.expect:
-		w.tags["cancel-armed"] = true
+		w.tag("cancel-armed")
 		w.nontriv = true
+		w.racers = true
 	default:
-		w.tags["cancel-after-done"] = true
+		w.tag("cancel-after-done")
 	}
 	if w.inCb >= 0 && w.inCb != int(k) {
-		w.tags["cancel-from-other-cb"] = true
+		w.tag("cancel-from-other-cb")
+	}
+	if w.svcMode && w.getLife() != lifeUp {
+		w.tag("cancel-outside-up")
 	}
 	w.mgr.Cancel(ti.id)
 	ti.cancelled = true
@@ -136,21 +178,36 @@ func (w *world) callback(k int, args []interface{}) {
 		a2, o2 := args[2].(int64)
 		ok = o0 && o1 && o2 && a0 == ti.arg && a1 == argMark && a2 == int64(k)
 	}
-	w.ran = append(w.ran, cbRec{
+	rec := cbRec{
 		k: int64(k), n: ti.count, argsOK: ok,
 		early:       now.Before(ti.armAt.Add(time.Duration(ti.d) * unit)),
 		afterCancel: ti.cancelled,
-		onOwner:     goid() == w.gid,
-	})
+		onOwner:     w.onOwner(),
+	}
+	w.mu.Lock()
+	w.ran = append(w.ran, rec)
+	w.mu.Unlock()
 	w.nontriv = true
+	ti.queued = false
 	if ti.count > 1 {
-		w.tags["repeat-fired-again"] = true
+		w.tag("repeat-fired-again")
+	}
+	if w.svcMode {
+		switch {
+		case !rec.onOwner:
+			w.tag("callback-off-owner")
+		case w.getLife() == lifeDown:
+			w.tag("callback-during-teardown")
+		}
 	}
 	prev := w.inCb
 	w.inCb = k
 	defer func() {
 		w.inCb = prev
 		ti.armAt = time.Now() // Do re-arms after this point
+		if w.svcMode && ti.repeating() && !ti.cancelled && !w.stopped {
+			ti.expect = true // (bare world: doObj)
+		}
 	}()
 	for _, a := range ti.prog {
 		t := hx.AsTerm(a)
@@ -161,8 +218,11 @@ func (w *world) callback(k int, args []interface{}) {
 			w.cancel(t.Int(0))
 		case "ACreate":
 			w.create(t.Int(0), t.Bool(1), t.Int(2), t.List(3))
+		case "AStop":
+			w.tag("stop-in-callback")
+			w.stopHere()
 		case "APanic":
-			w.tags["cb-panic"] = true
+			w.tag("cb-panic")
 			panic("c14: callback panic")
 		default:
 			panic("c14: unknown act " + t.Name)
@@ -185,7 +245,7 @@ func (w *world) doTimer(k int) {
 	objs := ti.recv
 	ti.recv = nil
 	if len(objs) > 0 && ti.cancelled {
-		w.tags["do-cancelled-expiry"] = true
+		w.tag("do-cancelled-expiry")
 	}
 	for _, o := range objs {
 		w.doObj(k, o)
@@ -257,64 +317,139 @@ func recsTerm(rs []cbRec) hx.T {
 	return hx.C("BRan", l)
 }
 
-// Exec runs one op list against a fresh real Mgr on the calling goroutine (the owner).
+func waitTerm(n int64, rs []cbRec) hx.T {
+	return hx.C("BWait", n, recsTerm(rs).Args[0])
+}
+
+// Exec runs one op list against a fresh real Mgr.  Bare world: on the calling goroutine (the
+// owner).  Service world (first op OSvc): the calling goroutine is the driver, the owner is the
+// loop of the case's StandardRunService.
 func Exec(ops []hx.T) (obs []any, nontrivial bool, tags []string) {
-	w := &world{mgr: timer.NewTimerMgr(), byID: map[timer.IdType]int{}, gid: goid(), inCb: -1,
-		tags: map[string]bool{}}
-	for _, o := range ops {
+	w := &world{byID: map[timer.IdType]int{}, gid: goid(), inCb: -1, tags: map[string]bool{}, life: lifeUp}
+	if len(ops) > 0 && ops[0].Name == "OSvc" {
+		w.newService()
+	} else {
+		w.mgr = timer.NewTimerMgr()
+	}
+	defer w.shutdown()
+	wrong := func(o hx.T) {
+		w.tag("op-in-the-wrong-world")
+		obs = append(obs, "BUnit")
+	}
+	for i, o := range ops {
 		switch o.Name {
+		case "OSvc":
+			if i > 0 {
+				w.tag("svc-marker-not-first")
+			}
+			obs = append(obs, "BUnit")
 		case "OCreate":
-			w.create(o.Int(0), o.Bool(1), o.Int(2), o.List(3))
+			w.perform(func() { w.create(o.Int(0), o.Bool(1), o.Int(2), o.List(3)) })
 			obs = append(obs, "BUnit")
 		case "OCreateN":
-			for i := int64(0); i < o.Int(0); i++ {
-				w.create(o.Int(1), o.Bool(2), o.Int(3), nil)
-			}
-			w.tags["create-n"] = true
+			w.perform(func() {
+				for i := int64(0); i < o.Int(0); i++ {
+					w.create(o.Int(1), o.Bool(2), o.Int(3), nil)
+				}
+			})
+			w.tag("create-n")
 			obs = append(obs, "BUnit")
 		case "OStall":
 			// the owner is busy elsewhere: nothing is read from the queue for this long
 			time.Sleep(time.Duration(o.Int(0)) * unit)
 			q := w.mgr.GetQueue()
 			if len(q) == cap(q) {
-				w.tags["queue-full-during-stall"] = true
+				w.tag("queue-full-during-stall")
 				w.nontriv = true
 			}
 			if o.Int(0) >= 1000 {
-				w.tags["stall>=1s"] = true
+				w.tag("stall>=1s")
 			}
 			obs = append(obs, "BUnit")
 		case "OCancel":
-			w.cancel(o.Int(0))
+			w.perform(func() { w.cancel(o.Int(0)) })
 			obs = append(obs, "BUnit")
 		case "OStop":
+			if w.svcMode {
+				wrong(o)
+				continue
+			}
 			got := w.settle(0)
 			w.mgr.Stop()
-			w.stopped = true
-			w.tags["stop"] = true
+			w.markStopped()
 			obs = append(obs, hx.C("BQueued", got))
 		case "OSettle":
+			if w.svcMode {
+				wrong(o)
+				continue
+			}
 			obs = append(obs, hx.C("BQueued", w.settle(o.Int(0))))
 		case "ODo":
-			w.ran = nil
+			if w.svcMode {
+				wrong(o)
+				continue
+			}
+			w.takeRan()
 			if k := o.Int(0); k >= 0 && k < int64(len(w.ts)) {
 				w.doTimer(int(k))
 			}
-			obs = append(obs, recsTerm(w.ran))
+			obs = append(obs, recsTerm(w.takeRan()))
 		case "ODoAll":
-			w.ran = nil
+			if w.svcMode {
+				wrong(o)
+				continue
+			}
+			w.takeRan()
 			n := len(w.ts) // timers created by callbacks during this op have nothing received
 			for k := 0; k < n; k++ {
 				w.doTimer(k)
 			}
-			obs = append(obs, recsTerm(w.ran))
+			obs = append(obs, recsTerm(w.takeRan()))
+		case "OWait":
+			if !w.svcMode {
+				wrong(o)
+				continue
+			}
+			n := w.waitArrivals(o.Int(0))
+			obs = append(obs, waitTerm(n, w.takeRan()))
+		case "OStart":
+			if !w.svcMode {
+				wrong(o)
+				continue
+			}
+			w.svcStart()
+			obs = append(obs, recsTerm(w.takeRan()))
+		case "ORun":
+			if !w.svcMode {
+				wrong(o)
+				continue
+			}
+			if w.alive() {
+				if w.getLife() == lifeDown {
+					w.tag("run-during-teardown")
+				}
+				w.runLoop()
+			} else {
+				w.tag("run-ignored")
+			}
+			obs = append(obs, recsTerm(w.takeRan()))
+		case "OStopSvc":
+			if !w.svcMode {
+				wrong(o)
+				continue
+			}
+			n := w.waitArrivals(0)
+			w.svcStop(o.Int(0))
+			obs = append(obs, waitTerm(n, w.takeRan()))
 		default:
 			panic("c14: unknown op " + o.Name)
 		}
 	}
+	w.mu.Lock()
 	for t := range w.tags {
 		tags = append(tags, t)
 	}
+	w.mu.Unlock()
 	sort.Strings(tags)
 	return obs, w.nontriv, tags
 }
